@@ -3,7 +3,10 @@ package gen
 import (
 	"fmt"
 	"math"
+	"math/big"
+	"time"
 
+	"github.com/fxamacker/cbor/v2"
 	cose "github.com/veraison/go-cose"
 
 	"verif/harness/mon"
@@ -150,6 +153,10 @@ func Value(r *mon.Rand, depth int) any {
 	case 2, 3:
 		return SpellInt(r, IntValue(r))
 	case 4:
+		if r.Intn(5) == 0 {
+			// a Go time value (whole seconds): the library's encoder writes it as an untagged epoch integer
+			return time.Unix(int64(1600000000+r.Intn(200000000)), 0).UTC()
+		}
 		fs := []float64{0, 1.5, -2.25, 1e300, -1e-300, 3.4028234663852886e+38, 65504, 1.0e10}
 		return fs[r.Intn(len(fs))]
 	case 5, 6:
@@ -266,6 +273,35 @@ func GoHeader(r *mon.Rand, o HeaderOpts, forbidIV bool) (m map[any]any, usedIV i
 				l = int64(300 + r.Intn(100000))
 			}
 			put(l, Value(r, 1))
+		}
+	}
+	if !o.Plain && o.MaxEntries > 0 && r.Intn(8) == 0 {
+		// a certificate chain given the natural Go way, as a slice of byte slices
+		chain := [][]byte{BytesValue(r)}
+		if r.Bool() {
+			chain = append(chain, BytesValue(r))
+		}
+		put(mon.Pick(r, int64(33), int64(32)), chain)
+	}
+	if o.Protected && !o.Plain && o.MaxEntries > 0 && r.Intn(8) == 0 {
+		// values that are written with a CBOR tag. Tags are permitted inside protected header content
+		// only (the envelope and the unprotected bucket are decoded with tags forbidden): integers
+		// beyond 64 bits (bignums; magnitudes between 2^63 and 2^64 are left out, see known finding F1)
+		// and explicitly tagged values, at the top level and nested.
+		bigv := new(big.Int).Lsh(big.NewInt(1), uint(64+r.Intn(200)))
+		bigv.Add(bigv, big.NewInt(int64(r.Intn(1000))))
+		if r.Bool() {
+			bigv.Neg(bigv)
+		}
+		switch r.Intn(4) {
+		case 0:
+			put(77001, bigv)
+		case 1:
+			put(77001, *bigv)
+		case 2:
+			put(77002, cbor.Tag{Number: 37, Content: r.Bytes(16)})
+		default:
+			put(77003, []any{cbor.Tag{Number: 1000, Content: int64(1700000000)}, map[any]any{int64(1): bigv}})
 		}
 	}
 	if o.Protected && !o.NoCrit && len(m) > 0 && r.Intn(3) == 0 {
